@@ -287,6 +287,37 @@ def gen_program(rng, nops, max_chans=6, max_queue=40, p_poison=0.08):
     return ops, expect
 
 
+def fixed_programs():
+    """deterministic programs that do not depend on the generator's luck: member ids handed out after closures were reported, with
+    earlier and later members alive (any number of times); accept of a departed client; a set dropped with traffic pending"""
+    scripts = [
+        # three members; the first closes and is reported; a fourth is added while the others are alive; traffic on all
+        [("new",), ("new",), ("new",), ("new",), ("setnew",), ("setadd", 8, 1), ("setadd", 8, 3), ("setadd", 8, 5), ("drop", 0), "sel8",
+         ("setadd", 8, 7), ("send", 2, 11, 0, []), ("send", 4, 12, 0, []), ("send", 6, 13, 0, []), "sel8", ("drop", 2), "sel8", ("new",), ("setadd", 8, 10),
+         ("send", 9, 14, 0, []), ("send", 6, 15, 0, []), "sel8", ("drop", 4), ("drop", 6), ("drop", 9), "sel8", ("drop", 8)],
+        # the middle member closes first
+        [("new",), ("new",), ("new",), ("setnew",), ("setadd", 6, 1), ("setadd", 6, 3), ("setadd", 6, 5), ("send", 2, 21, 0, []), ("drop", 2), "sel6",
+         ("new",), ("setadd", 6, 8), ("send", 7, 22, 0, []), ("send", 0, 23, 0, []), ("send", 4, 24, 0, []), "sel6", ("drop", 0), ("drop", 4), ("drop", 7), "sel6", ("drop", 6)],
+        # a server whose client leaves without sending; one whose client sends, then leaves
+        [("server",), ("connect", 0), ("drop", 1), ("accept", 0), ("server",), ("connect", 2), ("send", 3, 31, 0, []), ("drop", 3), ("accept", 2), ("recv", 4, "recv"), ("drop", 4)],
+    ]
+    out = []
+    for sc in scripts:
+        sim = Sim()
+        ops, exp = [], []
+        for o in sc:
+            if isinstance(o, str) and o.startswith("sel"):
+                sh = int(o[3:])
+                o = ("selectall", sh, sim.pending(sim.handles[sh][1]))
+                if o[2] == 0:
+                    continue
+            e = sim.step(("recv", o[1]) if o[0] == "recv" else o)
+            ops.append(o)
+            exp.append(e)
+        out.append((ops, exp))
+    return out
+
+
 def op_line(op):
     k = op[0]
     if k in ("new", "server", "setnew"):
